@@ -292,6 +292,16 @@ def rule_structural_discharges(ctx):
     # which must be an occurrence of the variable's own sort
     from .. import collect
     collect.check_variable_conversions(ctx, "PANIC-TAB", fx, which=("from",))
+    # .. and every other caller of Formula::substitute must hand over a term of the variable's sort: the call-site table of C17, which for
+    # simplify_transitive_equality rests on the subsort table (symbol <= general, integer <= general, nothing else)
+    from . import c17 as _c17
+    sub17 = type(ctx)(ctx.prop, ctx.tier, ctx.facts)
+    _c17.rule_sites(sub17)
+    for o in sub17.obls:
+        o = dict(o)
+        o["key"] = "PANIC-TAB:" + o["key"]
+        o["rule"] = "PANIC-TAB"
+        ctx.obls.append(o)
     # MAP: `mapping[&p]` in is_tight / has_private_recursion cannot miss a key because a node is created for every predicate of the program
     # (every private one) and an edge only joins predicates of its rules (both private): the graph obligations of C11
     from . import c11
